@@ -5,6 +5,8 @@ from vlib import core, mtlib
 from vlib.core import log, ToolError
 from checks import mtcommon
 
+TLC_TIMEOUT = 5400   # generous: a timeout is an infrastructure failure (exit 2), never a verdict
+
 READER = dict(base="MtReader", trace="Trace_MtReader", inv=mtlib.READER_INV, props=mtlib.READER_PROPS,
               silent=mtlib.SILENT_READER)
 
@@ -51,13 +53,13 @@ def _design(cfg, consts, name, tlc_workers, dump=None, spec=None, props=True):
     d, mod, cfgf = mtlib.write_model(cfg["base"], consts, spec=spec or ("Spec" if props else "SpecSafe"),
                                      invariants=cfg["inv"] if props else (), properties=cfg["props"] if props else (),
                                      deadlock=True)
-    r = core.run_tlc(mod, cfgf, workers=tlc_workers, timeout=900, cwd=d, dump=dump, coverage=props)
+    r = core.run_tlc(mod, cfgf, workers=tlc_workers, timeout=TLC_TIMEOUT, cwd=d, dump=dump, coverage=props)
     return r, d
 
 
 def _design_spur(cfg):
     d, mod, cfgf = mtlib.write_model(cfg["base"], cfg["consts"], spec="SpecSpur", invariants=cfg["inv"])
-    return core.run_tlc(mod, cfgf, workers=3, timeout=900, cwd=d, coverage=False)
+    return core.run_tlc(mod, cfgf, workers=3, timeout=TLC_TIMEOUT, cwd=d, coverage=False)
 
 
 def run_plan(ctx, props, plan, quick, extra_random=None, lzip_scan=False, workqueue=False):
@@ -107,7 +109,7 @@ def run_plan(ctx, props, plan, quick, extra_random=None, lzip_scan=False, workqu
     for c in tour_cfgs:
         d, mod, cfgf = mtlib.write_model(c["base"], c["consts"], spec="SpecSafe")
         dot = os.path.join(d, "graph.dot")
-        futs.append((c, dot, pool.submit(core.run_tlc, mod, cfgf, workers=3, timeout=900, cwd=d, dump=dot, coverage=False)))
+        futs.append((c, dot, pool.submit(core.run_tlc, mod, cfgf, workers=3, timeout=TLC_TIMEOUT, cwd=d, dump=dot, coverage=False)))
     for c, dot, f in futs:
         r = f.result()
         init, edges, ne = mtlib.load_graph(dot)
